@@ -1,6 +1,7 @@
 CONSTANTS
   NG = 3
   NL = 0
+  Sample = 60
   MaxLen = 2
 INIT Init
 NEXT Next
